@@ -90,6 +90,9 @@ ServerMay(proto, st, kind) == st \in SpecServerStates[proto] /\ SpecHas(proto, s
 -----------------------------------------------------------------------------
 (* The implementation's `State::apply` tables (direction-agnostic), over the  *)
 (* state classes of the snapshot hook.  "ERR" = Err(..) => violation flag.   *)
+(* (Reflects the tree with patches/fix-C24-*.diff applied: Done accepted in   *)
+(* keep-alive Client / peer-sharing Idle / tx-submission TxIdsBlocking, the   *)
+(* blocking flag of RequestTxIds honoured.)                                   *)
 
 ImplInit == [handshake |-> "Propose", keepalive |-> "Client", peersharing |-> "IdleEmpty", blockfetch |-> "Idle",
              chainsync |-> "IdleNew", txsubmission |-> "Init", leiosnotify |-> "IdleNone", leiosfetch |-> "IdleNone"]
@@ -105,10 +108,12 @@ ImplNext(proto, st, kind) ==
             [] OTHER -> "ERR")
     [] proto = "keepalive" ->
          (CASE st = "Client" /\ kind = "KeepAlive" -> "Server"
+            [] st = "Client" /\ kind = "Done" -> "Done"
             [] st = "Server" /\ kind = "ResponseKeepAlive" -> "Client"
             [] OTHER -> "ERR")
     [] proto = "peersharing" ->
          (CASE st \in {"IdleEmpty", "IdleResponse"} /\ kind = "ShareRequest" -> "Busy"
+            [] st \in {"IdleEmpty", "IdleResponse"} /\ kind = "Done" -> "Done"
             [] st = "Busy" /\ kind = "SharePeers" -> "IdleResponse"
             [] OTHER -> "ERR")
     [] proto = "blockfetch" ->
@@ -131,7 +136,9 @@ ImplNext(proto, st, kind) ==
             [] OTHER -> "ERR")
     [] proto = "txsubmission" ->
          (CASE st = "Init" /\ kind = "Init" -> "Idle"
-            [] st = "Idle" /\ kind \in {"RequestTxIdsBlocking", "RequestTxIdsNonBlocking"} -> "TxIdsBlocking"
+            [] st = "Idle" /\ kind = "RequestTxIdsBlocking" -> "TxIdsBlocking"
+            [] st = "Idle" /\ kind = "RequestTxIdsNonBlocking" -> "TxIdsNonBlocking"
+            [] st = "TxIdsBlocking" /\ kind = "Done" -> "Done"
             [] st = "Idle" /\ kind = "RequestTxs" -> "Txs"
             [] st = "TxIdsNonBlocking" /\ kind = "ReplyTxIds" -> "TxIdsNonBlocking"
             [] st = "TxIdsBlocking" /\ kind = "ReplyTxIds" -> "TxIdsBlocking"
